@@ -6,7 +6,8 @@ from .c19 import generator_adts, GENERATORS
 
 RULE = ("(R1) differential value numbering: every operation of every generator type is value-numbered on the same symbolic inputs in each build "
         "configuration (dev/rel profile flags x default/serde/std+log features) and the returned value and all reachable state must be the "
-        "identical normal forms (operations with a data-dependent loop are compared through their loop summaries: loop variables, initial "
+        "identical normal forms, and no overflow check (present in overflow-checked builds only) of a straight-line operation may be left "
+        "undischarged (R2) (operations with a data-dependent loop are compared through their loop summaries: loop variables, initial "
         "values, invariant intervals, the per-iteration update terms, exit conditions, trip bound and calls per iteration); (R3) every cfg / cfg_attr / cfg! predicate atom in the sources is in the frozen allow-list and there is no "
         "debug_assert*, no debug_assertions / overflow_checks / target_endian / target_pointer_width dependence; (R4) unsafe blocks, fns and "
         "impls are exactly the frozen allow-list; (R5) no floating-point type occurs in any body reachable from a generator operation")
@@ -54,7 +55,14 @@ def eval_op(crate, key, opaque_extra=(), summarise=False):
     args, objs = symbolic_args(ev, st, body)
     ret = ev.call_body(st, key, args)
     ncalls = sum(1 for c in ev.calls if not (c[3] == "fmt" or c[1].startswith("log::") or c[1].startswith("<log::")))
-    return ret, {n: st.objs[o] for n, o in objs.items()}, st.world, ncalls, loop_signatures(crate, ev)
+    # arithmetic checks that exist in overflow-checked builds only and are not shown unreachable here (straight-line operations
+    # only: inside summarised loops the interval invariants that C14 uses are not computed)
+    open_ovf = []
+    if not summarise:
+        for a in ev.asserts:
+            if a.kind.startswith("Overflow") and not a.discharged and "rand_core-" not in a.span[0] and ".cargo/registry" not in a.span[0]:
+                open_ovf.append((a.kind, a.span[0]))
+    return ret, {n: st.objs[o] for n, o in objs.items()}, st.world, ncalls, loop_signatures(crate, ev), open_ovf
 
 
 TEMP_RE = re.compile(r"^L\d+\.t\d+")
@@ -252,6 +260,11 @@ def run(chk, tier):
                 ok = same_value(b0[0], r1[0]) and set(b0[1]) == set(r1[1]) and all(same_value(b0[1][n], r1[1][n]) for n in b0[1]) \
                     and b0[2] is r1[2] and b0[3] == r1[3] and sl
                 compared += 1
+                # private helpers are judged through the operations that call them (with the callers' argument values)
+                for kind_, sp_ in (sorted(set(b0[5] + r1[5])) if tr is not None else []):
+                    chk.ob("R2", "%s::%s|%s at %s cannot fail" % (ident, m, kind_, sp_), False,
+                           "an arithmetic check that only overflow-checked builds contain may fail: such builds panic where the others wrap",
+                           where=sp_)
                 if key in summarised:
                     nsumm += 1
                     nloops += len(b0[4])
